@@ -241,6 +241,11 @@ impl Property for C20 {
                         cands.push(format!("{}{}", n.to_ascii_lowercase(), extra));
                     }
                 }
+                for n in super::typed::PLAUSIBLE_UNKNOWN_TAG_NAMES {
+                    cands.push(n.to_string());
+                    cands.push(n.to_ascii_lowercase());
+                    cands.push(n.to_ascii_uppercase());
+                }
                 for s in cands {
                     self.parse_one(acc, i, &s, &named);
                 }
